@@ -380,10 +380,25 @@ func (g *ribGen) retargetCase() RCase {
 		c.Steps = append(c.Steps, RStep{K: k, Op: &o})
 	}
 	nis := []int{1, 2, 3}
+	// in some instances group 2 names group 1 as its backup (a backup is not a counted reference: the groups can be
+	// deleted in any order, and a flush releases what the backup group itself references like that of any group)
+	bk := map[int]uint64{}
+	for _, n := range nis {
+		if g.r.Chance(1, 2) {
+			bk[n] = 1
+		}
+	}
+	grp := func(n int, gi uint64) drv.OpSpec {
+		o := drv.OpSpec{NI: n, Kind: "ADD", T: "nhg", Key: gi, NHs: [][2]uint64{{1, 1}}}
+		if gi == 2 {
+			o.Bk = bk[n]
+		}
+		return o
+	}
 	for _, n := range nis {
 		add("add", drv.OpSpec{NI: n, Kind: "ADD", T: "nh", Key: 1})
 		for gi := uint64(1); gi <= 2; gi++ {
-			add("add", drv.OpSpec{NI: n, Kind: "ADD", T: "nhg", Key: gi, NHs: [][2]uint64{{1, 1}}})
+			add("add", grp(n, gi))
 		}
 	}
 	top := func() drv.OpSpec {
@@ -421,7 +436,7 @@ func (g *ribGen) retargetCase() RCase {
 		case x < 17:
 			add("del", drv.OpSpec{NI: drv.Pick(g.r, nis...), Kind: "DELETE", T: "nhg", Key: uint64(1 + g.r.Intn(2))})
 		case x < 19:
-			add("add", drv.OpSpec{NI: drv.Pick(g.r, nis...), Kind: "ADD", T: "nhg", Key: uint64(1 + g.r.Intn(2)), NHs: [][2]uint64{{1, 1}}})
+			add("add", grp(drv.Pick(g.r, nis...), uint64(1+g.r.Intn(2))))
 		default:
 			c.Steps = append(c.Steps, RStep{K: "flush", NIs: [][]int{{1}, {2}, {3}, {1, 2}, {1, 2, 3}}[g.r.Intn(5)]})
 		}
@@ -433,7 +448,7 @@ func (g *ribGen) retargetCase() RCase {
 		c.Steps = append(c.Steps, RStep{K: "flush", NIs: []int{n}})
 		add("add", drv.OpSpec{NI: n, Kind: "ADD", T: "nh", Key: 1})
 		for gi := uint64(1); gi <= 2; gi++ {
-			add("add", drv.OpSpec{NI: n, Kind: "ADD", T: "nhg", Key: gi, NHs: [][2]uint64{{1, 1}}})
+			add("add", grp(n, gi))
 		}
 		for gi := uint64(1); gi <= 2; gi++ {
 			add("del", drv.OpSpec{NI: n, Kind: "DELETE", T: "nhg", Key: gi})
